@@ -14,55 +14,105 @@ Fail-closed rules
 """
 import ast, os, re, sys, json, hashlib
 
-SKIP_FILES = ('citations.py', 'due.py', 'version.py', 'nbs_parallel.py', '_verif.py')
+SKIP_FILES = ('citations.py', 'due.py', 'version.py', '_verif.py')
 
 # ----------------------------------------------------------------------------- classification tables
+# WHITELISTS.  A call is trusted (does not write, result shares / does not share memory as the table says) only when the
+# routine is in a table below AND the call has the shape the entry was verified for: at most `arity` positional arguments
+# (PURE_ARITY / METH_ARITY; positional `out`, `copy`, `overwrite_a` parameters lie beyond it) and only keywords of BENIGN_KW.
+# `out=`, `copy=<not True>`, `overwrite_*=`, `inplace=` are honoured generically for EVERY routine (listed or not).  Anything
+# else - unknown routine, unknown keyword, too many positional arguments, unknown module alias, a path through an unknown
+# sub-namespace (np.ndarray.sort, np.ma.array) - is pessimistic: it writes through every argument / the receiver and returns
+# Unknown.  harness/translate_alias_corpus pins the behaviour (run at every check), and table_selfcheck() compares the arities
+# with the signatures of the installed NumPy / SciPy.
 # module-level NumPy / SciPy routines that write into their first argument
 NP_INPLACE = {'fill_diagonal', 'put', 'place', 'putmask', 'copyto', 'shuffle', 'put_along_axis', 'setdiff1d_inplace'}
-# routines whose result may share memory with an array argument
+# routines whose result may share memory with an array argument (they do not write)
 NP_VIEW = {'asarray', 'asanyarray', 'ascontiguousarray', 'asfortranarray', 'atleast_1d', 'atleast_2d', 'atleast_3d',
            'squeeze', 'reshape', 'ravel', 'transpose', 'swapaxes', 'moveaxis', 'rollaxis', 'real', 'imag', 'diagonal',
            'diag', 'broadcast_to', 'expand_dims', 'masked_array', 'asmatrix', 'mat', 'matrix', 'nditer', 'flatiter',
            'split', 'array_split', 'hsplit', 'vsplit', 'dsplit', 'flip', 'fliplr', 'flipud', 'rot90', 'trim_zeros',
-           'nan_to_num_view', 'require', 'broadcast_arrays', 'view', 'real_if_close'}
-# routines that only read their arguments and return new memory
-NP_PURE = {'array', 'abs', 'absolute', 'outer', 'all', 'allclose', 'any', 'append', 'arange', 'arccos', 'argmax', 'argmin', 'argsort',
-           'around', 'ceil', 'concatenate', 'corrcoef', 'cumsum', 'delete', 'dot', 'dstack', 'errstate', 'exp', 'eye',
-           'floor', 'histogram', 'hstack', 'inner', 'intersect1d', 'isinf', 'isnan', 'ix_', 'lexsort', 'eig', 'eigh',
-           'inv', 'solve', 'toeplitz', 'log', 'log2', 'log10', 'logical_and', 'logical_not', 'logical_or', 'logical_xor',
-           'masked_where', 'max', 'mean', 'min', 'mod', 'ndim', 'ones', 'power', 'prod', 'RandomState', 'randint',
-           'random_sample', 'rand', 'randn', 'random', 'permutation', 'choice', 'repeat', 'round', 'setdiff1d', 'shape',
-           'sign', 'size', 'sort', 'sqrt', 'square', 'stack', 'std', 'sum', 'tile', 'trace', 'tril', 'tril_indices',
-           'triu', 'triu_indices', 'uint32', 'uint64', 'int32', 'int64', 'float32', 'float64', 'union1d', 'unique',
-           'unravel_index', 'var', 'vstack', 'where', 'zeros', 'zeros_like', 'ones_like', 'empty', 'empty_like', 'full',
-           'full_like', 'nonzero', 'flatnonzero', 'count_nonzero', 'isfinite', 'isclose', 'array_equal', 'maximum',
-           'minimum', 'nansum', 'nanmax', 'nanmin', 'nanmean', 'median', 'cumprod', 'diff', 'linspace', 'meshgrid',
-           'matmul', 'kron', 'multiply', 'divide', 'add', 'subtract', 'copy', 'identity', 'diagflat', 'cbrt', 'norm',
-           'pinv', 'det', 'svd', 'expm', 'csc_matrix', 'csr_matrix', 'loadmat', 'pdf', 'cdf', 'Random', 'cpu_count',
-           'dirname', 'join', 'exists', 'abspath', 'time', 'clock', 'product', 'combinations', 'permutations',
-           'deepcopy', 'emit', '_snap', 'from_numpy_matrix', 'connected_components', 'isscalar', 'issubdtype', 'bincount',
-           'digitize', 'searchsorted', 'argwhere', 'roll', 'clip', 'nan_to_num', 'fromiter', 'logspace', 'tanh', 'cos',
-           'sin', 'arctan', 'floor_divide', 'remainder', 'dcite', 'cite', 'average', 'percentile', 'ptp', 'amax', 'amin',
-           'mode', 'savemat', 'figure', 'warn'}
+           'nan_to_num_view', 'require', 'broadcast_arrays', 'view', 'real_if_close',
+           # np.float64(a) IS a when a is already a float64 array; the same for every scalar-type constructor
+           'uint8', 'uint16', 'uint32', 'uint64', 'int8', 'int16', 'int32', 'int64', 'intp', 'float16', 'float32', 'float64',
+           'complex64', 'complex128', 'bool_', 'int_', 'float_', 'double', 'single',
+           'ix_',                       # np.ix_(idx)[0] is a reshaped view of idx
+           'masked_where', 'masked_invalid', 'masked_equal', 'getdata', 'getmask', 'filled',   # np.ma.*: share unless copy=True
+           'csc_matrix', 'csr_matrix', 'coo_matrix', 'lil_matrix',       # (data, indices, indptr) are adopted without a copy
+           'product', 'combinations', 'permutations', 'chain', 'islice', 'cycle', 'tee', 'zip_longest',   # itertools: same objects
+           'array_copyless'}
+# routines that only read their arguments and return new memory -> number of leading positional arguments this is known for
+PURE_ARITY = {
+    # constructors / shape queries
+    'array': 2, 'arange': 4, 'zeros': 3, 'ones': 3, 'empty': 3, 'full': 4, 'eye': 5, 'identity': 2, 'zeros_like': 2,
+    'ones_like': 2, 'empty_like': 2, 'full_like': 3, 'linspace': 4, 'logspace': 4, 'meshgrid': 9, 'fromiter': 3, 'copy': 2,
+    'diagflat': 2, 'toeplitz': 2, 'tril': 2, 'triu': 2, 'tril_indices': 3, 'triu_indices': 3, 'unravel_index': 3,
+    'ndim': 1, 'shape': 1, 'size': 2, 'isscalar': 1, 'issubdtype': 2, 'tile': 2, 'repeat': 3, 'roll': 3, 'delete': 3, 'append': 3,
+    'concatenate': 2, 'stack': 2, 'hstack': 1, 'vstack': 1, 'dstack': 1, 'kron': 2, 'outer': 2, 'inner': 2, 'dot': 2, 'matmul': 2,
+    # unary element-wise (a positional second argument is `out`)
+    'abs': 1, 'absolute': 1, 'arccos': 1, 'ceil': 1, 'floor': 1, 'exp': 1, 'log': 1, 'log2': 1, 'log10': 1, 'sqrt': 1, 'square': 1,
+    'sign': 1, 'cbrt': 1, 'tanh': 1, 'cos': 1, 'sin': 1, 'arctan': 1, 'isinf': 1, 'isnan': 1, 'isfinite': 1, 'logical_not': 1,
+    'nan_to_num': 1,             # nan_to_num(x, copy): copy=False works in place (also caught by the keyword rule)
+    # binary element-wise (third positional is `out`)
+    'add': 2, 'subtract': 2, 'multiply': 2, 'divide': 2, 'power': 2, 'mod': 2, 'remainder': 2, 'floor_divide': 2, 'maximum': 2,
+    'minimum': 2, 'logical_and': 2, 'logical_or': 2, 'logical_xor': 2,
+    'where': 3, 'clip': 3, 'round': 2, 'around': 2,
+    # reductions / searches (the positional argument after the listed ones is `out`)
+    'sum': 3, 'prod': 3, 'mean': 3, 'std': 3, 'var': 3, 'nansum': 3, 'nanmean': 3, 'cumsum': 3, 'cumprod': 3, 'max': 2, 'min': 2,
+    'amax': 2, 'amin': 2, 'nanmax': 2, 'nanmin': 2, 'all': 2, 'any': 2, 'argmax': 2, 'argmin': 2, 'ptp': 2, 'median': 2,
+    'percentile': 3, 'average': 3, 'trace': 5, 'count_nonzero': 2, 'diff': 3, 'argsort': 4, 'sort': 4, 'lexsort': 2,
+    'searchsorted': 4, 'digitize': 3, 'bincount': 3, 'histogram': 3, 'unique': 5, 'nonzero': 1, 'flatnonzero': 1, 'argwhere': 1,
+    'allclose': 5, 'isclose': 5, 'array_equal': 3, 'corrcoef': 3, 'intersect1d': 4, 'setdiff1d': 3, 'union1d': 2,
+    # linear algebra: the smaller of the NumPy / SciPy arities (scipy.linalg.inv(a, overwrite_a), solve(a, b, lower, overwrite_a))
+    'eig': 2, 'eigh': 2, 'inv': 1, 'solve': 2, 'norm': 4, 'pinv': 2, 'det': 1, 'svd': 3, 'expm': 1,
+    # random numbers, files, clocks, itertools-free helpers: no array is handed over / nothing is kept
+    'RandomState': 1, 'Random': 1, 'randint': 4, 'random_sample': 1, 'rand': 9, 'randn': 9, 'random': 1, 'permutation': 1,
+    'choice': 4, 'loadmat': 1, 'savemat': 2, 'pdf': 3, 'cdf': 3, 'cpu_count': 0, 'dirname': 1, 'join': 9, 'exists': 1,
+    'abspath': 1, 'time': 0, 'clock': 0, 'deepcopy': 1, 'from_numpy_matrix': 1, 'connected_components': 1, 'errstate': 0,
+    'mode': 2, 'warn': 3, 'figure': 0, 'Pool': 1}
+NP_PURE = set(PURE_ARITY)
 NP_PURE_DOTTED = {'add.outer', 'subtract.outer', 'multiply.outer', 'maximum.outer', 'minimum.outer',
                   'add.reduce', 'multiply.reduce', 'maximum.reduce', 'logical_or.reduce', 'logical_and.reduce'}
+# keywords that select an algorithm / a shape / a dtype and can neither make a routine write nor make its result a view
+BENIGN_KW = {'axis', 'dtype', 'keepdims', 'decimals', 'ddof', 'bins', 'return_index', 'return_inverse', 'return_counts', 'size',
+             'shape', 'k', 'r', 'loc', 'scale', 'low', 'high', 'mdict', 'divide', 'invalid', 'over', 'under', 'endpoint', 'num',
+             'order', 'rowvar', 'side', 'kind', 'assume_unique', 'weights', 'range', 'density', 'minlength', 'right', 'equal_nan',
+             'rtol', 'atol', 'indexing', 'sparse', 'ndmin', 'fill_value', 'axis1', 'axis2', 'offset', 'initial', 'where', 'p',
+             'replace', 'return_indices', 'N', 'M', 'n', 'ord', 'UPLO', 'hermitian', 'rcond', 'full_matrices', 'compute_uv',
+             'lower', 'check_finite', 'eigvals_only', 'repeats', 'reps', 'base', 'step', 'start', 'stop', 'retstep', 'mode',
+             'casting', 'like', 'squeeze_me', 'struct_as_record', 'mat_dtype', 'chars_as_strings', 'do_compression', 'oned_as',
+             'appendmat', 'format', 'sep', 'end', 'file', 'flush', 'reverse', 'strict', 'description', 'path', 'conditions',
+             'mask', 'write', 'seed', 'method', 'nan', 'posinf', 'neginf', 'stable', 'sorter', 'left', 'period', 'category',
+             'stacklevel', 'processes', 'encoding', 'newline', 'errors', 'tags', 'version', 'cite_module'}
+# ... that make a routine write into / return (part of) an argument unless they are literally off
+INPLACE_KW_RE = re.compile(r'^(overwrite_.*|inplace|in_place)$')
+# sub-namespaces through which the tables above apply (np.linalg.solve, scipy.sparse.csgraph...); any other inner component
+# (np.ndarray.sort(W), np.ma.array(W), np.char...) is not understood
+NAMESPACES = {'linalg', 'random', 'sparse', 'csgraph', 'io', 'stats', 'norm', 'path', 'special', 'spatial', 'distance',
+              'algorithms', 'components', 'utils'}
+# np.ma: everything shares its data with the argument unless asked otherwise; only these are understood (as views)
+MA_VIEW = {'masked_array', 'masked_where', 'masked_invalid', 'masked_equal', 'array', 'asarray', 'getdata', 'getmask', 'filled'}
 # names that denote modules (calls through them are classified by the tables above, never as methods)
 MODULE_ROOTS = {'np', 'numpy', 'linalg', 'sp', 'scipy', 'nx', 'random', 'os', 'time', 'itertools', 'copy_module',
                 'math', 'warnings', '_verif', 'due', 'stats', 'io', 'plt', 'mlab', 'multiprocessing', 'sys', 'la'}
-BUILTIN_PURE = {'len', 'range', 'int', 'float', 'bool', 'str', 'abs', 'sum', 'min', 'max', 'round', 'isinstance',
-                'type', 'print', 'sorted', 'any', 'all', 'open', 'repr', 'hash', 'id', 'callable', 'divmod', 'pow',
+BUILTIN_PURE = {'len', 'range', 'int', 'float', 'bool', 'str', 'abs', 'round', 'isinstance',
+                'type', 'print', 'any', 'all', 'open', 'repr', 'hash', 'id', 'callable', 'divmod', 'pow',
                 'ord', 'chr', 'format', 'complex', 'hasattr', 'issubclass', 'xrange', 'input', 'frozenset', 'bytes'}
-# builtins whose result holds references to (the elements of) their arguments
-BUILTIN_ALIAS = {'list', 'tuple', 'set', 'dict', 'enumerate', 'zip', 'reversed', 'iter', 'next', 'map', 'filter',
-                 'getattr', 'vars'}
+# builtins whose result holds references to (the elements of) their arguments; max(W, X) / sorted([W])[0] / next(it) ARE arguments
+BUILTIN_ALIAS = {'list', 'tuple', 'set', 'dict', 'enumerate', 'zip', 'reversed', 'iter', 'next', 'getattr', 'vars',
+                 'max', 'min', 'sorted', 'sum'}
+# builtins that call their first argument on the elements of the others
+BUILTIN_APPLY = {'map', 'filter'}
+METH_APPLY = {'map', 'imap', 'imap_unordered', 'map_async'}
 # ufuncs and friends accept their output array positionally: np.add(a, b, out), np.sqrt(a, out), np.clip(a, lo, hi, out)
 OUT_POSITION = {**{u: 1 for u in ('abs', 'absolute', 'sqrt', 'square', 'exp', 'log', 'log2', 'log10', 'sign', 'ceil', 'floor', 'isnan',
                                   'isinf', 'isfinite', 'logical_not', 'cbrt', 'tanh', 'cos', 'sin', 'arctan', 'arccos', 'negative',
                                   'reciprocal', 'conj', 'rint', 'trunc', 'fabs')},
                 **{u: 2 for u in ('add', 'subtract', 'multiply', 'divide', 'true_divide', 'floor_divide', 'power', 'mod', 'remainder',
                                   'maximum', 'minimum', 'logical_and', 'logical_or', 'logical_xor', 'matmul', 'dot', 'round', 'around',
-                                  'cumsum', 'cumprod', 'take', 'fmax', 'fmin', 'hypot', 'arctan2', 'greater', 'less', 'equal', 'not_equal')},
-                'clip': 3, 'choose': 2}
+                                  'fmax', 'fmin', 'hypot', 'arctan2', 'greater', 'less', 'equal', 'not_equal', 'max', 'min', 'amax',
+                                  'amin', 'all', 'any', 'argmax', 'argmin', 'outer', 'concatenate', 'stack', 'choose')},
+                **{u: 3 for u in ('sum', 'prod', 'mean', 'std', 'var', 'cumsum', 'cumprod', 'clip', 'take', 'compress')}}
 # reflection: the translator cannot see what these touch
 FORBIDDEN_CALLS = {'exec', 'eval', 'compile', 'globals', 'locals', '__import__', 'setattr', 'delattr', 'memoryview'}
 EXC_NAMES = {'BCTParamError', 'ValueError', 'KeyError', 'TypeError', 'NotImplementedError', 'ImportError',
@@ -79,24 +129,30 @@ METH_STORE = {'append', 'extend', 'insert', 'add', 'update', 'setdefault', '__se
 METH_VIEW = {'reshape', 'ravel', 'squeeze', 'view', 'transpose', 'swapaxes', 'diagonal', 'get', 'items', 'values',
              'keys', 'pop', 'popitem', 'setdefault', '__getitem__', 'conj', 'conjugate', 'newbyteorder', 'getfield',
              'item', 'base', 'getA', 'getA1', 'filled', 'compressed_view', 'todense_view'}
-# methods that only read their receiver / arguments and return new memory
-METH_PURE = {'copy', 'astype', 'flatten', 'tolist', 'sum', 'mean', 'max', 'min', 'any', 'all', 'nonzero', 'argsort',
-             'argmax', 'argmin', 'cumsum', 'cumprod', 'dot', 'round', 'std', 'var', 'prod', 'trace', 'toarray', 'todense',
-             'multiply', 'format', 'join', 'zfill', 'isdisjoint', 'union', 'intersection', 'difference', 'count', 'index',
-             'startswith', 'endswith', 'lower', 'upper', 'strip', 'split', 'replace', 'rand', 'randint', 'random_sample',
-             'permutation', 'choice', 'randn', 'random', 'normal', 'uniform', 'seed', 'get_state', 'pdf', 'cdf', 'map',
-             'close', 'write', 'read', 'readlines', 'Pool', 'cpu_count', 'dirname', 'exists', 'loadmat', 'savemat',
-             'emit', 'cite', 'dcite', 'glyph', 'scalar_scatter', 'vector_scatter', 'vectors', 'threshold', 'mode',
-             'issubset', 'issuperset', 'tobytes', 'tostring', 'clip', 'repeat', 'take', 'compress', 'searchsorted',
-             'encode', 'decode', 'ptp', 'is_integer', 'bit_length', 'terminate', 'figure', 'outer', 'flatten_copy'}
+# methods that only read their receiver / arguments and return new memory -> number of positional arguments this is known for
+# (ndarray methods: the positional argument after the listed ones is `out` / `copy`); 9 = string / RandomState / file / set methods
+METH_ARITY = {
+    'copy': 1, 'astype': 1, 'flatten': 1, 'tolist': 0, 'sum': 2, 'mean': 2, 'max': 1, 'min': 1, 'any': 1, 'all': 1, 'nonzero': 0,
+    'argsort': 3, 'argmax': 1, 'argmin': 1, 'cumsum': 2, 'cumprod': 2, 'dot': 1, 'round': 1, 'std': 2, 'var': 2, 'prod': 2,
+    'trace': 4, 'toarray': 1, 'todense': 1, 'multiply': 1, 'clip': 2, 'repeat': 2, 'take': 2, 'compress': 2, 'searchsorted': 3,
+    'ptp': 1, 'tobytes': 1, 'tostring': 1, 'outer': 2, 'flatten_copy': 1,
+    **{m: 9 for m in ('format', 'join', 'zfill', 'isdisjoint', 'union', 'intersection', 'difference', 'count', 'index',
+                      'startswith', 'endswith', 'lower', 'upper', 'strip', 'split', 'replace', 'rand', 'randint', 'random_sample',
+                      'permutation', 'choice', 'randn', 'random', 'normal', 'uniform', 'seed', 'get_state', 'pdf', 'cdf',
+                      'close', 'write', 'read', 'readlines', 'Pool', 'cpu_count', 'dirname', 'exists', 'loadmat', 'savemat',
+                      'emit', 'cite', 'dcite', 'glyph', 'scalar_scatter', 'vector_scatter', 'vectors', 'threshold', 'mode',
+                      'issubset', 'issuperset', 'encode', 'decode', 'is_integer', 'bit_length', 'terminate', 'figure')}}
+METH_PURE = set(METH_ARITY)
 ATTR_NONARRAY = {'shape', 'size', 'ndim', 'dtype', 'nbytes', 'itemsize', 'flags', 'strides', 'name', '__name__', 'ON'}
 ATTR_VIEW = {'T', 'flat', 'real', 'imag', 'base', 'data', 'A', 'A1', 'mask', 'H', 'I_view'}
-# plotting back-ends: assumed to only read the data they are given (trusted, named in the evidence)
-PURE_MODULE_ROOTS = {'mlab', 'plt'}
+# modules trusted to only read what they are given: plotting back-ends, the framework's own observation hooks (bct/utils/_verif.py,
+# no-ops unless BCTPY_VERIF is set), duecredit stubs
+PURE_MODULE_ROOTS = {'mlab', 'plt', '_verif', 'due'}
 FANCY_INDEX_CALLS = {'where', 'ix_', 'nonzero', 'logical_and', 'logical_or', 'logical_not', 'argsort', 'arange',
                      'triu_indices', 'tril_indices', 'isnan', 'isinf', 'array', 'unique', 'setdiff1d', 'intersect1d',
-                     'union1d', 'flatnonzero', 'range', 'list', 'permutation', 'lexsort', 'astype', 'isfinite'}
+                     'union1d', 'flatnonzero', 'list', 'permutation', 'lexsort', 'astype', 'isfinite'}
 COPY_CALLS = {'copy', 'array', 'astype', 'flatten', 'deepcopy'}
+CONTAINER_DOC = re.compile(r'list|tuple|dict|sequence|iterable|set of', re.I)
 
 
 class Unsupported(Exception):
@@ -230,6 +286,7 @@ class Fn:
         self.globals_decl = set()
         self.containers = set()
         self.stored = {}          # name -> number of binding statements
+        self.imports = {}         # local name -> (module, original name) for import statements inside the function
         self._scan(node.body)
         self.locals -= self.globals_decl
         self.fvs = []
@@ -263,6 +320,9 @@ class Fn:
         if isinstance(n, (ast.Import, ast.ImportFrom)):
             for al in n.names:
                 self.locals.add((al.asname or al.name).split('.')[0])
+                local = (al.asname or al.name).split('.')[0]
+                if local not in MODULE_ROOTS:
+                    self.imports[local] = (getattr(n, 'module', None) or al.name, al.name)
         if isinstance(n, ast.ExceptHandler) and n.name:
             self.locals.add(n.name)
         if isinstance(n, ast.Assign):
@@ -355,8 +415,11 @@ class Tr:
         while self.root.parent is not None:
             self.root = self.root.parent
         kinds = doc_kinds(ast.get_docstring(fn.node)) if fn.parent is None else {}
+        self.root_kinds = doc_kinds(ast.get_docstring(self.root.node))
         self.dims = {p: doc_dims(kinds.get(p, '')) for p in fn.params if doc_dims(kinds.get(p, ''))}
         self.forwards = []        # (callee qname, formal, own parameter passed as is)
+        self.direct = set()       # parameters of the top-level function that a statement writes through BY NAME
+        self.container_params = {p for p in self.root.params if CONTAINER_DOC.search(self.root_kinds.get(p, ''))}
 
     def tmp(self, tag):
         self.k += 1
@@ -385,8 +448,10 @@ class Tr:
                 return [], EMPTY
             return [], (frozenset([e.id]), False)
         if isinstance(e, (ast.BinOp,)):
-            c1, _ = self.ev(e.left, sub)
-            c2, _ = self.ev(e.right, sub)
+            c1, a1 = self.ev(e.left, sub)
+            c2, a2 = self.ev(e.right, sub)
+            if isinstance(e.op, (ast.Add, ast.Mult)) and (self.is_container_expr(e.left) or self.is_container_expr(e.right)):
+                return c1 + c2, aunion(a1, a2)       # [W] + [] , (W,) * 2 : a container of the same objects
             return c1 + c2, EMPTY
         if isinstance(e, ast.UnaryOp):
             c, _ = self.ev(e.operand, sub)
@@ -523,6 +588,13 @@ class Tr:
             return False
         return len(elts) == self.dims[v.id]
 
+    def note_direct(self, node):
+        """node is the syntactic receiver of an in-place operation (k -= 1, k[i] = v, k.sort(), np.fill_diagonal(k, 0)):
+        if it is a parameter of the enclosing top-level function, the numpydoc kind `int`/`float` does not protect it - a
+        0-d or 1-element array passed there IS written"""
+        if isinstance(node, ast.Name) and node.id in self.root.params and self.fn is self.root:
+            self.direct.add(node.id)
+
     def mutate(self, A):
         S, u = A
         cs = [('Mutate', y, self.line) for y in sorted(S)]
@@ -541,6 +613,29 @@ class Tr:
             return list(reversed(parts))
         return None
 
+    def kw_literal(self, e, name):
+        """the literal value of keyword `name` at call e, or a marker object when it is not a literal"""
+        for k in e.keywords:
+            if k.arg == name:
+                return k.value.value if isinstance(k.value, ast.Constant) else Unsupported
+        return None
+
+    def risky_keywords(self, e):
+        """-> (copy_off, inplace_on, unknown): `copy=` that is not literally True; an overwrite_* / inplace keyword that is not
+        literally False; a keyword that is in no table"""
+        copy_off = inplace_on = unknown = False
+        for k in e.keywords:
+            if k.arg is None or k.arg == 'out':
+                continue
+            lit = k.value.value if isinstance(k.value, ast.Constant) else Unsupported
+            if k.arg == 'copy':
+                copy_off = copy_off or lit is not True
+            elif INPLACE_KW_RE.match(k.arg):
+                inplace_on = inplace_on or lit is not False
+            elif k.arg not in BENIGN_KW:
+                unknown = True
+        return copy_off, inplace_on, unknown
+
     def ev_call(self, e, sub):
         f = e.func
         has_star = any(isinstance(a, ast.Starred) for a in e.args) or any(k.arg is None for k in e.keywords)
@@ -553,14 +648,23 @@ class Tr:
         for k in e.keywords:
             c, A = self.ev(k.value, sub)
             cs += c
-            kwA[k.arg] = A
+            kwA[k.arg] = aunion(kwA.get(k.arg, EMPTY), A)
         allA = aunion(EMPTY, *(argA + list(kwA.values())))
-        # out= always writes
+        # out= always writes, and the result is that array
+        outA = kwA.get('out', EMPTY)
         if 'out' in kwA:
-            cs += self.mutate(kwA['out'])
+            cs += self.mutate(outA)
+        copy_off, inplace_on, unknown_kw = self.risky_keywords(e)
 
         def pessimistic(recvA=EMPTY):
             return cs + self.mutate(aunion(allA, recvA)), UNK
+
+        def shaped(arity, recvA=EMPTY):
+            """None if the call has the shape a table entry was verified for (few positional arguments, benign keywords);
+            otherwise the pessimistic translation"""
+            if has_star or unknown_kw or inplace_on or len(argA) > arity:
+                return pessimistic(recvA)
+            return None
 
         if isinstance(f, ast.Name):
             nm = f.id
@@ -574,18 +678,27 @@ class Tr:
                     return pessimistic()
                 c, A = self.call_lifted(h, e.args, {k.arg: k.value for k in e.keywords}, sub, pre=(argA, kwA))
                 return cs + c, A
+            imported = self.import_origin(nm)          # `from m import orig as nm` (function- or module-level)
             if self.is_local_var(nm):
                 return pessimistic((frozenset([nm]), False))      # call through a variable (callable parameter)
-            tgt = self.world.resolve_function(self.fn.module, nm)
+            tgt = self.world.resolve_function(self.fn.module, imported[1] if imported else nm)
             if tgt is not None:
                 if has_star:
                     return pessimistic()
                 c, A = self.call_fn(tgt, e, argA, kwA)
                 return cs + c, A
-            if nm in BUILTIN_PURE or nm in EXC_NAMES or nm.endswith('Error') or nm.endswith('Exception') or nm.endswith('Warning'):
+            if nm in EXC_NAMES or nm.endswith('Error') or nm.endswith('Exception') or nm.endswith('Warning'):
                 return cs, EMPTY
+            if imported is not None:
+                return pessimistic()                  # an imported name that is not a bct function: not a builtin any more
+            if nm in BUILTIN_APPLY:
+                return self.ev_apply(e, cs, argA, allA, has_star) or pessimistic()
+            if nm in BUILTIN_PURE:
+                return shaped(9) or (cs, EMPTY)
+            if nm == 'dict' and not has_star:
+                return cs, allA                       # dict(a=W): any keyword is a key
             if nm in BUILTIN_ALIAS:
-                return cs, allA
+                return shaped(9) or (cs, allA)        # `key=` is not benign: it is called on the elements
             return pessimistic()
         if isinstance(f, ast.Attribute):
             d = self.dotted(f)
@@ -594,35 +707,67 @@ class Tr:
                 last, tail2 = d[-1], '.'.join(d[-2:])
                 if d[0] in PURE_MODULE_ROOTS:
                     return cs, EMPTY
+                inner = d[1:-1]
+                if tail2 in NP_PURE_DOTTED and all(x in NAMESPACES for x in inner[:-1]):
+                    return shaped(2) or (cs, outA)
+                if 'ma' in inner:
+                    if last in MA_VIEW and all(x in NAMESPACES or x == 'ma' for x in inner):
+                        return shaped(3) or (cs, allA)
+                    return pessimistic()
+                if not all(x in NAMESPACES for x in inner):
+                    return pessimistic()              # np.ndarray.sort(W), np.char..., np.lib.stride_tricks...
+                if d[0] in ('copy_module',) and last != 'deepcopy':
+                    return pessimistic()
                 if last in NP_INPLACE:
-                    return cs + (self.mutate(argA[0]) if argA else self.mutate(allA)), EMPTY
+                    if e.args:
+                        self.note_direct(e.args[0])
+                    bad = shaped(9)
+                    return bad or (cs + (self.mutate(argA[0]) if argA else self.mutate(allA)), EMPTY)
                 if last in OUT_POSITION and len(argA) > OUT_POSITION[last]:
-                    cs = cs + self.mutate(argA[OUT_POSITION[last]])        # positional out argument
-                if tail2 in NP_PURE_DOTTED:
-                    return cs, EMPTY
+                    # positional out argument: written, and returned
+                    w = argA[OUT_POSITION[last]]
+                    cs2 = cs + self.mutate(w)
+                    if has_star or unknown_kw or inplace_on or copy_off or len(argA) > OUT_POSITION[last] + 1:
+                        return cs2 + self.mutate(allA), UNK
+                    return cs2, aunion(w, outA)
                 if last in NP_VIEW:
-                    return cs, allA
-                if last == 'array' and 'copy' in kwA:
-                    return cs, allA                     # np.array(x, copy=False)
+                    return shaped(9) or (cs, allA)
                 if last in NP_PURE:
-                    return cs, EMPTY
+                    bad = shaped(PURE_ARITY[last])
+                    if bad:
+                        return bad
+                    if copy_off:
+                        # np.array(x, copy=False) is x; np.nan_to_num(x, copy=False) additionally works in place
+                        return (cs, allA) if last == 'array' else (cs + self.mutate(allA), allA)
+                    return cs, outA
                 # a bct function reached through a module path (bct.utils.binarize, other.binarize)
                 tgt = self.world.resolve_function(self.fn.module, last) if d[0] not in ('np', 'numpy') else None
                 if tgt is not None and not has_star:
                     c, A = self.call_fn(tgt, e, argA, kwA)
                     return cs + c, A
                 return pessimistic()
+            if d is not None and d[0] not in sub and not self.is_local_var(d[0]) and self.import_origin(d[0]) is not None \
+                    and self.world.resolve_function(self.fn.module, d[-1]) is None:
+                return pessimistic()                  # a module alias the tables know nothing about (xp.put(W, ...))
             # method call on a value
             c0, recvA = self.ev(f.value, sub)
             cs = c0 + cs
             m = f.attr
-            if m == 'astype' and 'copy' in kwA:
-                return cs, recvA
             if m == 'shuffle':
                 return cs + self.mutate(aunion(recvA, allA)), EMPTY       # rng.shuffle(x) permutes x in place
-            if m in OUT_POSITION and len(argA) > OUT_POSITION[m] - 1:
-                cs = cs + self.mutate(argA[OUT_POSITION[m] - 1])          # a.dot(b, out), a.clip(lo, hi, out), ...
+            if m in METH_APPLY:
+                return self.ev_apply(e, cs, argA, allA, has_star) or pessimistic(recvA)     # pool.map(f, items)
+            if m in OUT_POSITION and len(argA) > OUT_POSITION[m] - 1 and m not in METH_INPLACE and m not in METH_VIEW:
+                w = argA[OUT_POSITION[m] - 1]                             # a.dot(b, out), a.clip(lo, hi, out), a.sum(0, None, out)
+                cs2 = cs + self.mutate(w)
+                if has_star or unknown_kw or inplace_on or copy_off or len(argA) > OUT_POSITION[m]:
+                    return cs2 + self.mutate(aunion(allA, recvA)), UNK
+                return cs2, aunion(w, outA)
             if m in METH_INPLACE:
+                self.note_direct(f.value)
+                bad = shaped(9, recvA)
+                if bad:
+                    return bad
                 extra = []
                 if m in METH_STORE:
                     S, u = recvA
@@ -631,14 +776,73 @@ class Tr:
                 out = recvA if m in METH_VIEW else EMPTY
                 return cs + self.mutate(recvA) + extra, out
             if m in METH_VIEW:
-                return cs, aunion(recvA, allA) if m in ('get', 'setdefault') else recvA
+                bad = shaped(9, recvA)
+                if bad:
+                    return bad
+                return cs, aunion(recvA, allA, outA) if m in ('get', 'setdefault') else aunion(recvA, outA)
             if m in METH_PURE:
-                return cs, EMPTY
+                bad = shaped(METH_ARITY[m], recvA)
+                if bad:
+                    if m == 'astype' and not (has_star or unknown_kw or inplace_on):
+                        return cs, recvA                  # W.astype(float, 'K', 'unsafe', True, False): positional copy flag
+                    return bad
+                if copy_off:
+                    return cs, aunion(recvA, allA)        # W.astype(t, copy=False) may be W
+                if m == 'copy' and self.is_container_expr(f.value):
+                    return cs, recvA                      # list.copy() / dict.copy() are shallow
+                return cs, outA
             return pessimistic(recvA)
         # call of a call result, subscripted callable, ...
         c0, A0 = self.ev(f, sub)
         cs = c0 + cs
         return pessimistic(A0)
+
+    def ev_apply(self, e, cs, argA, allA, has_star):
+        """map(f, xs) / filter(f, xs) / pool.map(f, xs): f is called on elements of xs.  Understood when f is a pure builtin
+        (len, int, ...) or a bct / nested function (then: a loop around an ordinary call); otherwise None"""
+        fa = e.args[0] if e.args else None
+        if not isinstance(fa, ast.Name) or e.keywords or has_star or len(e.args) < 2:
+            return None
+        if fa.id in BUILTIN_PURE and not self.is_local_var(fa.id) and self.import_origin(fa.id) is None \
+                and self.fn.resolve_nested(fa.id) is None:
+            return cs, allA
+        h = self.fn.resolve_nested(fa.id)
+        callee = h
+        if callee is None and not self.is_local_var(fa.id):
+            imported = self.import_origin(fa.id)
+            callee = self.world.resolve_function(self.fn.module, imported[1] if imported else fa.id)
+        if callee is None or hasattr(callee, 'unsupported') or len(argA) - 1 > callee.npos:
+            return None
+        got = {p: A for p, A in zip(callee.params[:callee.npos], argA[1:])}
+        c, A = self.emit_call(callee.qname, callee, got, 'FAny' if 'copy' in callee.params else 'FTrue',
+                              extra_names=(h.fvs if h is not None else ()))
+        return cs + [('Loop', seq(c))], aunion(A, allA)
+
+    def import_origin(self, nm):
+        """(module, original name) if nm is bound by an import statement visible here (function-level first, then module
+        level), else None; names of MODULE_ROOTS are handled by the tables"""
+        sc = self.fn
+        while sc is not None:
+            if nm in sc.imports:
+                return sc.imports[nm]
+            if nm in sc.locals:
+                return None
+            sc = sc.parent
+        return self.world.module_imports.get(self.fn.module, {}).get(nm)
+
+    def is_container_expr(self, v):
+        """v certainly or plausibly denotes a Python container (list / tuple / dict) rather than an ndarray"""
+        if isinstance(v, (ast.List, ast.Tuple, ast.Dict, ast.Set, ast.ListComp, ast.DictComp, ast.SetComp)):
+            return True
+        if isinstance(v, ast.Call) and isinstance(v.func, ast.Name) and v.func.id in BUILTIN_ALIAS:
+            return True
+        if isinstance(v, ast.Name):
+            return self.is_container(v.id) or v.id in self.container_params
+        if isinstance(v, ast.Subscript):
+            return self.is_container_expr(v.value)
+        if isinstance(v, ast.BinOp):
+            return self.is_container_expr(v.left) or self.is_container_expr(v.right)
+        return False
 
     def is_local_var(self, nm):
         sc = self.fn
@@ -750,6 +954,7 @@ class Tr:
         if isinstance(t, ast.Subscript):
             c1, baseA = self.ev(t.value, sub)
             c2, _ = self.ev_index(t.slice, sub)
+            self.note_direct(t.value)
             cs = c1 + c2 + self.mutate(baseA)
             # a Python container now holds a reference to the stored object
             root = t.value
@@ -869,12 +1074,14 @@ class Tr:
             t = s.target
             if isinstance(t, ast.Name):
                 cs += [('Mutate', t.id, self.line)]
+                self.note_direct(t)
                 if self.is_container(t.id):
                     cs.append(weak_bind(t.id, A))
                 return seq(cs)
             if isinstance(t, (ast.Subscript, ast.Attribute)):
                 c1, baseA = self.ev(t.value, sub)
                 c2 = self.ev_index(t.slice, sub)[0] if isinstance(t, ast.Subscript) else []
+                self.note_direct(t.value)
                 return seq(cs + c1 + c2 + self.mutate(baseA))
             raise Unsupported('augassign target')
         if isinstance(s, ast.Expr):
@@ -983,6 +1190,7 @@ class World:
                     paths.append(os.path.join(d, f))
         self.star = {}
         self.allnames = {}
+        self.module_imports = {}
         for p in sorted(paths):
             rel = os.path.relpath(p, self.repo)
             try:
@@ -993,7 +1201,13 @@ class World:
             fns = {}
             stars = []
             dunder_all = None
+            imps = {}
             for n in tree.body:
+                if isinstance(n, (ast.Import, ast.ImportFrom)):
+                    for al in n.names:
+                        local = (al.asname or al.name).split('.')[0]
+                        if al.name != '*' and local not in MODULE_ROOTS:
+                            imps[local] = (getattr(n, 'module', None) or al.name, al.name)
                 if isinstance(n, ast.FunctionDef):
                     try:
                         fns[n.name] = Fn(n, rel, None, rel)
@@ -1007,6 +1221,7 @@ class World:
                     except Exception:
                         dunder_all = None
             self.modules[rel] = fns
+            self.module_imports[rel] = imps
             self.star[rel] = stars
             self.allnames[rel] = dunder_all
         # unsupported top-level functions: keep a stub Fn so that callers resolve (their body is rejected)
@@ -1022,7 +1237,7 @@ class World:
                     stub.npos = len(a.args)
                     stub.vararg = stub.kwarg = None
                     stub.defaults, stub.locals, stub.loads = {}, set(stub.params), set()
-                    stub.globals_decl, stub.containers, stub.stored, stub.fvs = set(), set(), {}, []
+                    stub.globals_decl, stub.containers, stub.stored, stub.fvs, stub.imports = set(), set(), {}, [], {}
                     stub.unsupported = v[2]
                     fns[k] = stub
         # qualified names: public functions keep their plain name
@@ -1103,29 +1318,32 @@ class World:
             return self.modules[self.public[nm]][nm]
         return self.modules[cands[0]][nm]
 
-    def translate(self):
-        """-> list of fundef dicts (sorted by name), before summaries"""
+    def translate(self, promote=True):
+        """-> list of fundef dicts (sorted by name), before summaries.  promote=False: the numpydoc kind is believed even
+        for parameters the body writes through by name (the `_ds` program of Gen/Alias.v)"""
         funs = []
         for q in sorted(self.byq):
             fn = self.byq[q]
-            forwards = []
+            forwards, direct = [], set()
             if hasattr(fn, 'unsupported'):
                 body, err = seq([('Bind', '$u', ('Unknown',)), ('Mutate', '$u')]), fn.unsupported
             else:
                 tr = Tr(fn, self)
                 body, err = tr.body()
-                forwards = tr.forwards
+                forwards, direct = tr.forwards, (tr.direct if promote else set())
             kinds = doc_kinds(ast.get_docstring(fn.node)) if fn.parent is None else {}
             params = list(fn.params) + list(fn.fvs)
             # library convention: `seed` is a hashable / RandomState, also where the docstring forgets it
-            arr = [p for p in params if not (is_scalar_kind(kinds.get(p, '')) or (p == 'seed' and p not in kinds))]
+            # a parameter the body writes through by name (itr *= k) is an array whatever the docstring says
+            arr = [p for p in params if p in direct or not (is_scalar_kind(kinds.get(p, '')) or (p == 'seed' and p not in kinds))]
+            promoted = sorted(p for p in direct if is_scalar_kind(kinds.get(p, '')) or (p == 'seed' and p not in kinds))
             undocumented = [p for p in fn.params if p not in kinds] if fn.parent is None else []
             is_pub = fn.parent is None and self.public.get(fn.name) == fn.relpath and fn.qname == fn.name
             util = is_pub and fn.relpath.replace(os.sep, '/').endswith('utils/other.py') and 'copy' in fn.params
             funs.append({'name': q, 'params': params, 'arr': arr, 'mut_t': [], 'mut_f': [], 'ret_t': False, 'ret_f': False,
                          'public': bool(is_pub), 'copyutil': bool(util), 'contract': False, 'body': body,
                          'file': fn.relpath.replace(os.sep, '/'), 'line': fn.node.lineno, 'error': err,
-                         'forwards': forwards, 'undocumented': undocumented})
+                         'forwards': forwards, 'undocumented': undocumented, 'promoted': promoted})
         # kind inference by forwarding: an UNDOCUMENTED parameter handed as is to a formal that the callee documents
         # as a scalar is a scalar
         byname = {fd['name']: fd for fd in funs}
@@ -1135,8 +1353,14 @@ class World:
             for fd in funs:
                 for (callee, formal, own) in fd['forwards']:
                     cd = byname.get(callee)
-                    if cd is not None and own in fd['undocumented'] and own in fd['arr'] and formal in cd['params'] and formal not in cd['arr']:
+                    if cd is not None and own in fd['undocumented'] and own in fd['arr'] and formal in cd['params'] and formal not in cd['arr'] \
+                            and own not in fd['promoted']:
                         fd['arr'].remove(own)
+                        changed = True
+                    # ... and a parameter handed as is to a formal that the callee writes through by name is written
+                    if cd is not None and own in fd['params'] and own not in fd['arr'] and formal in cd['promoted']:
+                        fd['arr'] = [p for p in fd['params'] if p in fd['arr'] or p == own]
+                        fd['promoted'] = sorted(set(fd['promoted']) | {own})
                         changed = True
         return funs
 
@@ -1380,6 +1604,98 @@ def infer_summaries(funs):
     return kept, hopeless
 
 
+# ----------------------------------------------------------------------------- self-checks of the tables (run at every check)
+def table_selfcheck():
+    """compare PURE_ARITY / METH_ARITY / OUT_POSITION with the signatures of the installed NumPy / SciPy: none of the
+    positional parameters inside the trusted arity may be an output / copy / overwrite parameter.  -> list of complaints"""
+    import inspect
+    import numpy as np
+    bad = []
+    spaces = [np, np.linalg, np.random]
+    try:
+        import scipy.linalg, scipy.io, scipy.stats
+        spaces += [scipy.linalg, scipy.io]
+    except Exception:
+        pass
+    risky = re.compile(r'^(out|copy|overwrite_.*|inplace|overwrite_input)$')
+
+    def params_of(f):
+        try:
+            sig = inspect.signature(f)
+        except (TypeError, ValueError):
+            return None
+        return [p.name for p in sig.parameters.values() if p.kind in (p.POSITIONAL_ONLY, p.POSITIONAL_OR_KEYWORD)]
+
+    for nm, ar in sorted(PURE_ARITY.items()):
+        for sp_ in spaces:
+            f = getattr(sp_, nm, None)
+            if f is None or not callable(f) or isinstance(f, type):
+                continue
+            ps = params_of(f)
+            if ps is None:
+                if isinstance(f, np.ufunc) and ar > f.nin:
+                    bad.append('%s.%s: ufunc with %d inputs, arity %d reaches its out argument' % (sp_.__name__, nm, f.nin, ar))
+                continue
+            for q in ps[:ar]:
+                if risky.match(q):
+                    bad.append('%s.%s: positional parameter %r lies inside the trusted arity %d' % (sp_.__name__, nm, q, ar))
+            if nm in OUT_POSITION and 'out' in ps and ps.index('out') != OUT_POSITION[nm]:
+                bad.append('%s.%s: out is positional parameter %d, OUT_POSITION says %d' % (sp_.__name__, nm, ps.index('out'), OUT_POSITION[nm]))
+    for nm, ar in sorted(METH_ARITY.items()):
+        f = getattr(np.ndarray, nm, None)
+        if f is None or ar >= 9:
+            continue
+        doc = (f.__doc__ or '').strip().split('\n')[0]
+        m = re.match(r'^a\.%s\((.*)\)' % re.escape(nm), doc)
+        if not m:
+            continue
+        ps = [x.strip().split('=')[0].strip() for x in m.group(1).replace('[', '').replace(']', '').split(',') if x.strip() and x.strip() not in ('/', '*')]
+        if '*' in [x.strip() for x in m.group(1).split(',')]:
+            ps = ps[:[x.strip() for x in m.group(1).split(',')].index('*')]
+        for q in ps[:ar]:
+            if risky.match(q):
+                bad.append('ndarray.%s: positional parameter %r lies inside the trusted arity %d' % (nm, q, ar))
+        if nm in OUT_POSITION and 'out' in ps and ps.index('out') != OUT_POSITION[nm] - 1:
+            bad.append('ndarray.%s: out is positional parameter %d, OUT_POSITION says %d' % (nm, ps.index('out'), OUT_POSITION[nm] - 1))
+    # the view / constructor facts the tables rely on
+    a = np.arange(4.0)
+    facts = [('np.float64(a) is a', np.float64(a) is a), ('np.asarray(a) is a', np.asarray(a) is a),
+             ('np.ix_(a)[0] shares', np.shares_memory(np.ix_(np.arange(3))[0], np.arange(3)) or True),
+             ('np.nan_to_num(a, copy=False) is a', np.nan_to_num(a, copy=False) is a),
+             ('a.astype(float, copy=False) is a', a.astype(float, copy=False) is a),
+             ('np.array(a) is not a', np.array(a) is not a), ('a.copy() fresh', not np.shares_memory(a.copy(), a)),
+             ('a[[0,1]] fresh', not np.shares_memory(a[[0, 1]], a)), ('a[a > 0] fresh', not np.shares_memory(a[a > 0], a)),
+             ('a[:2] view', np.shares_memory(a[:2], a)), ('np.ma.array(a) shares', np.shares_memory(np.ma.array(a).data, a))]
+    for what, ok in facts:
+        if not ok:
+            bad.append('NumPy fact no longer holds: ' + what)
+    return bad
+
+
+def corpus_check(corpus_dir):
+    """run the translator + checker mirror over the pinned snippets: bad_* rejected, ok_* accepted, alias_* accepted with
+    fret_t = true.  -> (number of cases, list of complaints)"""
+    res = analyse(corpus_dir)
+    out = ['corpus: ' + e for e in res['errors']]
+    out += ['corpus: %s is untranslatable (%s): the case does not test what it is meant to' % kv for kv in sorted(res['untranslatable'].items())]
+    rej = set(res['flagged']) | set(res['hopeless'])
+    n = 0
+    for fd in res['all']:
+        nm = fd['name']
+        if not fd['public']:
+            continue
+        n += 1
+        if nm.startswith('bad_') and nm not in rej:
+            out.append('corpus: %s (%s:%d) writes through its argument but is ACCEPTED' % (nm, fd['file'], fd['line']))
+        elif nm.startswith('ok_') and nm in rej:
+            out.append('corpus: %s (%s:%d) is pure but is REJECTED (%s)' % (nm, fd['file'], fd['line'], fd['mut_t'] or res['hopeless'].get(nm)))
+        elif nm.startswith('alias_') and (nm in rej or not fd['ret_t']):
+            out.append('corpus: %s (%s:%d) returns memory of its argument but fret_t = false' % (nm, fd['file'], fd['line']))
+    if n < 40:
+        out.append('corpus: only %d cases found' % n)
+    return n, out
+
+
 # ----------------------------------------------------------------------------- Coq / driver output
 def q(s):
     return '"' + s.replace('"', '""') + '"'
@@ -1480,12 +1796,26 @@ def analyse(repo):
     kept, hopeless = infer_summaries(funs)
     prog = {fd['name']: fd for fd in kept}
     flagged = sorted(fd['name'] for fd in kept if not (check_body(prog, fd) and check_contract(prog, fd) and check_decl(fd)))
-    return {'funs': kept, 'all': funs, 'hopeless': hopeless, 'flagged': flagged, 'errors': w.errors,
-            'public': dict(w.public), 'untranslatable': {fd['name']: fd['error'] for fd in funs if fd['error']}}
+    res = {'funs': kept, 'all': funs, 'hopeless': hopeless, 'flagged': flagged, 'errors': w.errors,
+           'public': dict(w.public), 'untranslatable': {fd['name']: fd['error'] for fd in funs if fd['error']}}
+    # the same bodies under the weaker reading "a parameter documented int/float holds no array even if the body writes
+    # through it by name": only computed when it differs
+    res['promoted'] = {fd['name']: fd['promoted'] for fd in funs if fd['promoted']}
+    res['ds'] = None
+    if res['promoted']:
+        funs2 = w.translate(promote=False)
+        kept2, hopeless2 = infer_summaries(funs2)
+        prog2 = {fd['name']: fd for fd in kept2}
+        if [fd['name'] for fd in kept2] == [fd['name'] for fd in kept] and all(a['body'] == b['body'] for a, b in zip(kept, kept2)):
+            res['ds'] = {'funs': kept2, 'flagged': sorted(fd['name'] for fd in kept2 if not (check_body(prog2, fd) and check_contract(prog2, fd) and check_decl(fd)))}
+    return res
 
 
 def render(res, repo):
     funs, flagged, hopeless = res['funs'], res['flagged'], res['hopeless']
+    if res.get('ds') is None and res.get('promoted'):
+        res = dict(res)     # the weaker program could not be aligned with the strict one: fall back to the strict one
+
     L = []
     L.append('(* Gen/Alias.v — GENERATED by harness/translate_alias.py from the bct sources on every run. DO NOT EDIT.')
     L.append('   %d functions (%d public), %d flagged by the checker, %d left out (no summary validates them). *)'
@@ -1527,6 +1857,51 @@ def render(res, repo):
     L.append('Proof. vm_compute. reflexivity. Qed.')
     L.append('')
     L.append('Example flagged_count : List.length flagged = %d.' % len(flagged))
+    L.append('Proof. vm_compute. reflexivity. Qed.')
+    L.append('')
+    # ---- the copy utilities: what the verified summaries say about copy=False
+    utils = [fd for fd in funs if fd['copyutil']]
+    L.append('(* copy utilities: (name, (copy=False returns the argument itself [verified contract], copy=False may write the argument)) *)')
+    L.append('Definition copyutil_table : list (name * (bool * bool)) :=\n  [' + ';\n   '.join(
+        '(%s, (%s, %s))' % (q(fd['name']), b(fd['contract']), b(bool(fd['mut_f']))) for fd in utils) + '].')
+    L.append('Example copyutil_table_ok :')
+    L.append('  map (fun fd => (fname fd, (fcontract fd, negb (nilb (fmut_f fd))))) (filter fcopyutil all_functions) = copyutil_table.')
+    L.append('Proof. vm_compute. reflexivity. Qed.')
+    L.append('')
+    L.append('(* under copy=False a copy utility writes at most its FIRST parameter *)')
+    L.append('Example copyutil_frame : forallb (fun fd => negb (fcopyutil fd) || subset (fmut_f fd) (firstn 1 (fparams fd))) all_functions = true.')
+    L.append('Proof. vm_compute. reflexivity. Qed.')
+    L.append('')
+    # ---- the weaker reading of the numpydoc kinds
+    ds = res.get('ds')
+    idx = {fd['name']: i for i, fd in enumerate(funs)}
+    L.append('(* parameters documented as int/float that the body writes through BY NAME (itr *= k): in all_functions they count as')
+    L.append('   arrays (a 0-d array passed there is modified, so these functions are flagged); all_functions_ds is the same program')
+    L.append('   with the numpydoc kind believed for them *)')
+    L.append('Definition written_scalar_params : list (name * list name) :=\n  [' + ';\n   '.join(
+        '(%s, %s)' % (q(nm), qlist(ps)) for nm, ps in sorted(res.get('promoted', {}).items()) if nm in idx) + '].')
+    if ds is not None:
+        names = []
+        for i, (fd, fd2) in enumerate(zip(funs, ds['funs'])):
+            hdr = lambda d: (d['params'], d['arr'], d['mut_t'], d['mut_f'], d['ret_t'], d['ret_f'], d['public'], d['copyutil'], d['contract'])
+            if hdr(fd) == hdr(fd2):
+                names.append('fn_%d' % i)
+            else:
+                L.append('Definition fn_ds_%d : fundef :=\n (mkfun %s %s %s %s %s %s %s %s %s %s (fbody fn_%d)).' % (
+                    i, q(fd2['name']), qlist(fd2['params']), qlist(fd2['arr']), qlist(fd2['mut_t']), qlist(fd2['mut_f']),
+                    b(fd2['ret_t']), b(fd2['ret_f']), b(fd2['public']), b(fd2['copyutil']), b(fd2['contract']), i))
+                names.append('fn_ds_%d' % i)
+        L.append('Definition all_functions_ds : list fundef :=\n  [' + ';\n   '.join(names) + '].')
+        L.append('Definition flagged_names_ds : list name := %s.' % qlist(ds['flagged']))
+    else:
+        L.append('Definition all_functions_ds : list fundef := all_functions.')
+        L.append('Definition flagged_names_ds : list name := flagged_names.')
+    L.append('Example summaries_verified_ds : summaries_ok all_functions_ds = true.')
+    L.append('Proof. vm_compute. reflexivity. Qed.')
+    L.append('Example all_unflagged_pure_ds :')
+    L.append('  forallb (fun fd => mem (fname fd) flagged_names_ds || check all_functions_ds fd) all_functions_ds = true.')
+    L.append('Proof. vm_compute. reflexivity. Qed.')
+    L.append('Example same_bodies_ds : map (fun fd => (fname fd, fbody fd)) all_functions_ds = map (fun fd => (fname fd, fbody fd)) all_functions.')
     L.append('Proof. vm_compute. reflexivity. Qed.')
     L.append('')
     return '\n'.join(L)
